@@ -231,6 +231,13 @@ def r5_order_provenance(cx, mods):
     ok = False
     for r in rets:
         v = r.value
+        if isinstance(v, ast.Name):
+            # a temporary bound once to the call (e.g. for an assertion on it) and not mutated afterwards
+            ds = [a for a in walk_body(ro.body) if isinstance(a, ast.Assign) and any(isinstance(t, ast.Name) and t.id == v.id for t in a.targets)]
+            touched = [c for c in ast.walk(ro) if isinstance(c, ast.Call) and isinstance(c.func, ast.Attribute) and U(c.func.value) == v.id
+                       and c.func.attr in ("sort", "reverse", "append", "insert", "pop", "remove", "extend", "clear")]
+            if len(ds) == 1 and not touched and not _rebound_between(ds[0].value, r, p[0]):
+                v = ds[0].value
         if isinstance(v, ast.Call) and call_attr(v) in ("toposort_flatten",) and v.args and U(v.args[0]) == p[0]:
             ok = True
         if isinstance(v, ast.Call) and call_name(v) == "list" and v.args and isinstance(v.args[0], ast.Call) and call_attr(v.args[0]) in ("toposort", "toposort_flatten"):
